@@ -81,6 +81,8 @@ fn run_simplify_full_classic(e: &Sexp) -> Result<Sexp, String> {
 /// generator of the semantic op on the full portfolio: the case together with the
 /// implementation's output, `((strategy F) G)`
 fn gen_sem_full(rng: &mut Rng) -> Sexp {
+    // `gen` mode does not silence the panic hook; a panic of the implementation is an output here
+    std::panic::set_hook(Box::new(|_| {}));
     let case = gen_strategy_case(rng);
     let c2 = case.clone();
     let out = std::panic::catch_unwind(move || run_simplify_full_classic(&c2));
